@@ -377,12 +377,6 @@ class BodyPartReader:
                 decoded_data.extend(d)
                 if 0 < self._client_max_size < len(decoded_data):
                     raise self._max_size_error_cls(self._client_max_size)
-            if self._decompressor is not None and not self._decompressor.eof:
-                # The part has ended inside the compressed stream.
-                raise ValueError(
-                    "Content-Encoding: %s data of the part is truncated"
-                    % self.headers.get(CONTENT_ENCODING)
-                )
             return decoded_data
         return data
 
@@ -697,6 +691,13 @@ class BodyPartReader:
         else:
             yield data
 
+    def _truncated_content_error(self) -> ValueError:
+        # The part has ended inside the compressed stream.
+        return ValueError(
+            "Content-Encoding: %s data of the part is truncated"
+            % self.headers.get(CONTENT_ENCODING)
+        )
+
     def _decode_content(self, data: bytes) -> bytes:
         encoding = self.headers.get(CONTENT_ENCODING, "").lower()
         if encoding == "identity":
@@ -712,6 +713,8 @@ class BodyPartReader:
                 decoded += d.decompress_sync(
                     b"", max_length=self._max_decompress_size
                 )
+            if not d.eof:
+                raise self._truncated_content_error()
             return decoded
 
         raise RuntimeError(f"unknown content encoding: {encoding}")
@@ -733,6 +736,9 @@ class BodyPartReader:
             yield await d.decompress(data, max_length=self._max_decompress_size)
             while d.data_available:
                 yield await d.decompress(b"", max_length=self._max_decompress_size)
+            if self._at_eof and not d.eof:
+                # That was the last chunk of the part.
+                raise self._truncated_content_error()
         else:
             raise RuntimeError(f"unknown content encoding: {encoding}")
 
